@@ -441,44 +441,7 @@ func runC03(c *core.Ctx) {
 				return true
 			})
 			c.Need(loop != nil, "collector loop (loop whose body is the select over results, timeout and closing)")
-			var exits []string
-			var walk func(n ast.Node, breakable bool)
-			walk = func(n ast.Node, breakable bool) {
-				ast.Inspect(n, func(nd ast.Node) bool {
-					switch x := nd.(type) {
-					case *ast.FuncLit:
-						return false
-					case *ast.ForStmt, *ast.RangeStmt, *ast.SelectStmt, *ast.SwitchStmt, *ast.TypeSwitchStmt:
-						if nd == n {
-							return true
-						}
-						// an unlabeled break inside belongs to that statement
-						walk(nd, false)
-						return false
-					case *ast.BranchStmt:
-						switch {
-						case x.Tok == token.GOTO:
-							exits = append(exits, "goto @"+c.P.Pos(x.Pos()))
-						case x.Tok == token.BREAK && x.Label != nil:
-							// a labeled break leaves the collector loop unless the label names a statement inside it
-							inside := false
-							ast.Inspect(loopBody, func(m ast.Node) bool {
-								if ls, ok := m.(*ast.LabeledStmt); ok && ls.Label.Name == x.Label.Name {
-									inside = true
-								}
-								return true
-							})
-							if !inside {
-								exits = append(exits, "break "+x.Label.Name+" @"+c.P.Pos(x.Pos()))
-							}
-						case x.Tok == token.BREAK && breakable:
-							exits = append(exits, "break @"+c.P.Pos(x.Pos()))
-						}
-					}
-					return true
-				})
-			}
-			walk(loopBody, true)
+			exits := loopEarlyExits(c, loopBody)
 			c.Check("collector-hears-every-owner", f.Name+"/collector-loop-exits", c.P.Pos(loop.Pos()), len(exits) == 0,
 				"the collector loop is left early ("+strings.Join(exits, ", ")+") without a classified return: owners that answer later are not counted, so too few successes can be reported as a failure (or the reverse) depending on arrival order")
 		}
